@@ -448,6 +448,8 @@ pub fn gen_history(rng: &mut Rng, stats: &mut [u64; 6]) -> History {
     let mut open: Vec<usize> = Vec::new();
     let mut n_iters = 0usize;
     let iter_heavy = rng.chance(1, 3);
+    // one history in sixty contains queries that jump thousands of jobs ahead
+    let huge = rng.chance(1, 60);
     for _ in 0..steps {
         let pending: Vec<usize> = (0..handles).filter(|i| !made[*i]).collect();
         if !pending.is_empty() && rng.chance(1, 5) {
@@ -460,7 +462,8 @@ pub fn gen_history(rng: &mut Rng, stats: &mut [u64; 6]) -> History {
         let avail: Vec<usize> = (0..handles).filter(|i| made[*i]).collect();
         let h = *rng.pick(&avail);
         stats[0] += 1;
-        let q = match rng.below(4) {
+        let q = match rng.below(if huge { 5 } else { 4 }) {
+            4 => rng.range(1100, 4000) as usize, // far beyond anything cached so far
             0 => rng.below(prefix.len() as u64 + 2) as usize,
             1 => rng.range(1, 400) as usize,
             2 => prefix.len() * rng.range(1, 6) as usize + rng.below(3) as usize,
